@@ -10,6 +10,8 @@ RANGE = {"rgb8": 1 << 24, "rgb8p": 1 << 24, "rgb565": 1 << 16, "gray1": 2, "gray
 PADS = {"rgb8": [0, 1, 2], "rgb8p": [0, 1, 3], "rgb565": [0, 2], "gray1": [0, 1, 3, 5], "gray4": [0, 1, 4, 5], "rgb222": [0, 1, 2, 7], "rgb32f": [0, 4], "gray8": [0, 1], "bgr8": [0, 3]}
 BITS = {"gray1", "gray4", "rgb222"}
 KINDS = ["full", "sub", "xstep", "trans", "flipx", "flipy"]
+PTRK = ("full", "sub", "flipy")        # view kinds whose x iterator is the underlying pointer / planar pointer iterator
+OVK = ("sub", "flipx", "flipy")
 CROSS = ["rgb8>rgb8p", "rgb8p>rgb8", "rgb8>bgr8", "gray8>rgb8"]
 DIMS_Q = [(0, 0), (1, 1), (3, 2), (5, 1), (1, 4), (4, 3), (0, 3), (2, 0), (2, 2), (5, 5)]
 BUILDS = list(range(7)) + [9]
@@ -47,7 +49,7 @@ def gen_ops(ctx):
         for sk in KINDS:
             for dk in KINDS:
                 dims = list(DIMS_Q) + [r.choice(dims_all) for _ in range(20 if th else 3)]
-                for (w, h) in dims:
+                for di, (w, h) in enumerate(dims):
                     n = w * h
                     for rep in range(1):
                         so, do = opar(r, org, sk), opar(r, org, dk)
@@ -56,6 +58,11 @@ def gen_ops(ctx):
                         A = lambda alg, arg=0, sv_=None, dv_=None, s2=None: ops.append(line(alg, org, sk, dk, w, h, so, do, spad, dpad, arg, sv if sv_ is None else sv_, dv if dv_ is None else dv_, s2))
                         A("copy"); A("cconv"); A("fill", r.below(R)); A("generate", r.below(R)); A("foreach", 1 + r.below(R - 1)); A("foreachpos", 1 + r.below(R - 1))
                         A("tr1", r.below(R)); A("trpos", r.below(R)); A("tr2", r.below(R), s2=vals(r, org, n))
+                        # uninitialized_fill / uninitialized_copy / default_construct / destruct _pixels (planar: the per-plane overloads need
+                        # planar_pixel_iterator itself, not a step adaptor)
+                        if (org != "rgb8p" or dk in PTRK) and (th or di % 2 == 1):
+                            A("ufill", r.below(R)); A("dcons"); A("destruct")
+                            if org != "rgb8p" or sk in PTRK: A("ucopy")
                         if org in ("rgb8", "rgb8p"):
                             # value / functor result of a compatible pixel type with ANOTHER channel order (bgr8): channels pair by colour
                             A("fillx", r.below(R)); A("genx", r.below(R)); A("tr1x", r.below(R))
@@ -71,6 +78,20 @@ def gen_ops(ctx):
                         if org == "rgb32f" and n:
                             # +0.0 against -0.0 compares equal; NaN compares unequal to itself
                             A("equal", 0, [0] * n, [1] * n); A("equal", 0, [9] * n, [8] * n); A("equal", 0, [7] + [0] * (n - 1), [7] + [0] * (n - 1))
+    # copy_pixels between two views of ONE underlying image (overlapping in either direction, or disjoint): 1-D traversable whole rows
+    # (sk = dk = full), or sub-views at (sx, sy) / (dx, dy) of a (w+2) x (h+2) image, plain / flipped left-right / flipped up-down
+    for org in ORGS:
+        modes = [("full", "full")] * 3 + [(a, b) for a in OVK for b in OVK]
+        for (sk, dk) in modes:
+            dims = [(1, 3), (3, 1), (2, 2), (3, 3), (4, 2), (1, 1), (0, 2), (2, 0)] + [(1 + r.below(5), 1 + r.below(5)) for _ in range(12 if th else 3)]
+            for (w, h) in dims:
+                for rep in range(4 if th else 2):
+                    arg = r.below(81)
+                    if rep == 0: arg = r.choice([9, 1, 27, 3, 9 + 27, 1 + 3, 27 + 1, 9 + 3])      # shifts by one pixel / one row in each direction
+                    so = 9 * r.below(8) if org in BITS else 0
+                    spad = r.choice(PADS[org])
+                    W0, H0 = (w if sk == "full" else w + 2), h + 2
+                    ops.append(line("copyov", org, sk, dk, w, h, so, 0, spad, 0, arg, vals(r, org, W0 * H0), []))
     # image operator== / != : two gil::image objects, every pair of row alignments (padded and contiguous rows), equal content, one pixel differing in
     # one channel, different dimensions
     for org in ORGS + ["rgb8>rgb8p", "rgb8p>rgb8", "rgb8>bgr8"]:
@@ -101,6 +122,8 @@ def gen_ops(ctx):
                     ops.append(line("cconv", cross, sk, dk, w, h, so, do, spad, dpad, 0, sv, dv))
                     if so_ != "gray8":
                         ops.append(line("copy", cross, sk, dk, w, h, so, do, spad, dpad, 0, sv, dv))
+                        if (so_ != "rgb8p" or sk in PTRK) and (do_ != "rgb8p" or dk in PTRK):
+                            ops.append(line("ucopy", cross, sk, dk, w, h, so, do, spad, dpad, 0, sv, dv))
                         ops.append(line("equal", cross, sk, dk, w, h, so, do, spad, dpad, 0, sv, list(sv)))
                         for c in range(3 if n else 0):
                             dv2 = list(sv); k = r.below(n); dv2[k] = one_channel_diff(do_, dv2[k], c)
@@ -113,7 +136,7 @@ def nontrivial(op):
 
 ASSUME = [
     "cell level model: a pixel store through a reference changes exactly that pixel's channels (C08 for packed / bit-aligned channels); checked here on the real buffers by the frame mask",
-    "std::copy / std::fill / std::equal / std::generate / memcmp are modelled by their specifications (forward order); source and destination buffers do not overlap",
+    "std::copy / std::fill / std::equal / std::generate / memcmp are modelled by their specifications; for source and destination inside one buffer the model distinguishes block moves (memmove) from element loops per organisation and iterator kind (tables in Driver/C04.lean, confirmed by the copyov ops); the Spec demands the loop's result only where std::copy's precondition holds (no destination pixel written earlier is read later)",
     "view dimensions agree (the algorithms BOOST_ASSERT it); pixel steps and row strides fit std::ptrdiff_t",
 ]
 
@@ -134,10 +157,22 @@ def compile_all(ctx):
     ctx.cov["probe_equal_planar_compiles"] = bool(pe)
     extra = (["C04_PLANAR_STEP_FILL"] if pb else []) + ([] if pe else ["C04_NO_PLANAR_EQUAL"])
     def one(b): return b, vlib.compile_harness(ctx, "harness/C04/main.cpp", name="C04_org%d" % b, defines=["C04_ORG=%d" % b] + extra)
-    with concurrent.futures.ThreadPoolExecutor(max_workers=min(len(BUILDS), ctx.jobs)) as ex: return dict(ex.map(one, BUILDS))
+    with concurrent.futures.ThreadPoolExecutor(max_workers=min(len(BUILDS), ctx.jobs)) as ex: bins = dict(ex.map(one, BUILDS))
+    # source-selected model variant (flag bit 2, read by the model only): does uninitialized_copy_pixels store through proxy references of step
+    # iterators over bit-aligned pixels?  (finding C04-uninitialized-copy-bit-aligned-step-views; observed on one probe op, the Spec still judges every op)
+    import subprocess
+    stores = False
+    if bins.get(4, (None, ""))[0]:
+        try:
+            out = subprocess.run([bins[4][0]], input="ucopy gray4 full xstep 1 1 0 0 0 0 0 %d | 9 | 6\n" % PF[0], capture_output=True, text=True, timeout=60).stdout
+            stores = out.strip().endswith("; 9")
+        except Exception: stores = False
+    if stores: PF[0] += 4
+    ctx.cov["source_variant_uninitialized_copy_stores_through_proxies"] = stores
+    return bins
 
 def run(ctx, ops=None):
-    obligations, discharged = vlib.standard_proof_steps(ctx)
+    obligations, discharged = vlib.standard_proof_steps(ctx, extra_props=["GilVerif.Props.C04Bits"])
     bins = compile_all(ctx)
     samples, distinct = [], 0
     bad = [(b, e) for b, (p, e) in bins.items() if p is None]
@@ -167,7 +202,7 @@ def run(ctx, ops=None):
     return vlib.finish(ctx, "proof", obligations, discharged,
         rule="one op line = one algorithm call; organisations rgb8 interleaved / rgb8 planar / rgb565 packed / gray1, gray4, rgb222 bit-aligned (first pixel at every bit offset) / rgb32f, "
              "plus the cross pairs rgb8<->rgb8 planar, rgb8->bgr8, gray8->rgb8; every ordered pair of view kinds {full, sub-view, x-stepped (1-D traversable and not), transposed, flipped left-right (negative x step), flipped up-down (negative row step)} with row padding; "
-             "sizes 0..5 (quick) / 0..12 (thorough) incl. empty; equal_pixels with identical content and a single differing pixel at positions of the view, +-0.0 and NaN for float; "
+             "copy_pixels between overlapping / disjoint views of one image (copyov), uninitialized_fill / uninitialized_copy / default_construct / destruct _pixels; sizes 0..5 (quick) / 0..12 (thorough) incl. empty; equal_pixels with identical content and a single differing pixel at positions of the view, +-0.0 and NaN for float; "
              "non-trivial = at least two pixels and not (contiguous unpadded full view on both sides); distinct op lines counted",
         samples=samples, distinct_nontrivial=distinct, assumptions=ASSUME, trusted_base=vlib.TRUSTED_BASE,
         extra={"input_distribution": ctx.cov.get("input_distribution")}, exhaustive=False)
